@@ -542,6 +542,13 @@ class Machine(object):
             cfg = F.gen_hash_cfg(Rng(seed), fam)
             if fam.startswith("BLAKE2") and not cfg.get("key"):
                 cfg["key"] = [seed, 16]
+            # tags of at least 128 bits: "a different message must not verify" is asserted with a 2^-64 bound or better
+            if fam.startswith("BLAKE2"):
+                cfg["digest_bytes"] = max(16, cfg["digest_bytes"])
+            if fam == "CMAC":
+                cfg["mac_len"] = 16 if cfg["alg"] == "AES" else 8
+            if fam.startswith("KMAC"):
+                cfg["mac_len"] = max(16, cfg["mac_len"])
             h = F.make_hash(cfg)
             h.update(msg)
             t = h.digest()
